@@ -7,7 +7,10 @@ def explored(target, tier):
     """cases retained by the coverage-guided search on the current tree (vlib/explore.py)"""
     if os.environ.get('VERIF_NO_EXPLORE'): return []
     from . import explore
-    return explore.cases(target, tier)[0]
+    try:
+        return explore.cases(target, tier)[0]
+    except Exception:
+        return []          # the search only proposes inputs; without it the check runs its own batches
 
 def _hist(cases, i):
     if cases[i][0] not in 'LC': return [cases[i]]
